@@ -90,6 +90,9 @@ class C10(Prop):
         for sig, txt in obs["races"]:
             res.append((sig, "the race detector reported a data race in the session handler", {"report": txt}))
         for r in obs["conc"]:
+            if r.get("cookies_lost_at_first_use"):
+                res.append(("concurrent:cookie-lost-at-first-use-of-session", "%d cookies set by the backend while several requests used a not-yet-cached session at once are missing from the session afterwards (%s)" % (
+                    r["cookies_lost_at_first_use"], "; ".join(r.get("first_use_examples") or [])[:300]), r))
             if r["panics"] or r["mixed"] or r["missing"] or r["leaked"]:
                 res.append(("concurrent:sessions-mixed-or-lost", "concurrent requests: %d panics, %d mixed, %d missing, %d leaked" % (r["panics"], r["mixed"], r["missing"], r["leaked"]), r))
         for h in obs["histories"]:
